@@ -65,6 +65,29 @@ where
         A: GLWEInfos,
         K: GGLWEInfos,
     {
+        // `glwe_trace` works on a temporary in the key's radix and runs the in-place trace on it with
+        // the scratch left after that temporary.
+        let tmp_infos: GLWELayout = GLWELayout {
+            n: res_infos.n(),
+            base2k: key_infos.base2k(),
+            k: a_infos.max_k().max(res_infos.max_k()),
+            rank: res_infos.rank(),
+        };
+        let lvl_0: usize = GLWE::<Vec<u8>>::bytes_of_from_infos(&tmp_infos);
+        let lvl_1: usize = self
+            .glwe_normalize_tmp_bytes()
+            .max(self.glwe_trace_assign_tmp_bytes_default(&tmp_infos, &tmp_infos, key_infos));
+
+        (lvl_0 + lvl_1).max(self.glwe_trace_assign_tmp_bytes_default(res_infos, a_infos, key_infos))
+    }
+
+    /// Scratch required by the in-place trace (`glwe_trace_assign`).
+    fn glwe_trace_assign_tmp_bytes_default<R, A, K>(&self, res_infos: &R, a_infos: &A, key_infos: &K) -> usize
+    where
+        R: GLWEInfos,
+        A: GLWEInfos,
+        K: GGLWEInfos,
+    {
         assert_eq!(self.n() as u32, res_infos.n());
         assert_eq!(self.n() as u32, a_infos.n());
         assert_eq!(self.n() as u32, key_infos.n());
@@ -144,10 +167,10 @@ where
         assert_eq!(ksk_infos.rank_in(), res.rank());
         assert_eq!(ksk_infos.rank_out(), res.rank());
         assert!(
-            scratch.available() >= self.glwe_trace_tmp_bytes_default(res, res, ksk_infos),
+            scratch.available() >= self.glwe_trace_assign_tmp_bytes_default(res, res, ksk_infos),
             "scratch.available(): {} < GLWETrace::glwe_trace_tmp_bytes: {}",
             scratch.available(),
-            self.glwe_trace_tmp_bytes_default(res, res, ksk_infos)
+            self.glwe_trace_assign_tmp_bytes_default(res, res, ksk_infos)
         );
 
         if res.base2k() != ksk_infos.base2k() {
